@@ -57,7 +57,7 @@ def run_units(units, tier):
 def confirm_failures(unit, res):
     """Re-run a failing Verus unit once with a doubled resource limit; an obligation that does not
     fail again is undecided, not violated."""
-    r2 = vrun.run_unit(unit, REPO, rlimit=20, tag=os.environ.get('VERIF_TAG', '') + '_confirm')
+    r2 = vrun.run_unit(unit, REPO, rlimit=2 * vrun.DEFAULT_RLIMIT, tag=os.environ.get('VERIF_TAG', '') + '_confirm')
     if r2.status == 'undecided':
         return res.failures, []
     again = {(f['fn'], f['label']) for f in r2.failures}
